@@ -33,9 +33,9 @@ Fmts == { "scalar", "diag3", "flat9", "nested" }
 PropSet == { M!Props[q] : q \in 1..4 }
 
 \* ---------- dictionary records ----------
-D(c) == [ k \in 1..Len(c.mats) |-> [ name |-> c.mats[k].name, m |-> c.mats[k].m ] ]
+D(c) == M!Tabulate([ k \in 1..Len(c.mats) |-> [ name |-> c.mats[k].name, m |-> c.mats[k].m ] ], Len(c.mats))
 IndexOfName(c, nm) == LET S == { k \in 1..Len(c.mats) : c.mats[k].name = nm } IN IF Cardinality(S) = 1 THEN CHOOSE k \in S : TRUE ELSE 0
-NameOrd(c) == [ r \in 1..Len(c.names) |-> IndexOfName(c, c.names[r]) ]
+NameOrd(c) == M!Tabulate([ r \in 1..Len(c.names) |-> IndexOfName(c, c.names[r]) ], Len(c.names))
 
 MalformedDict(c) ==
     \/ ~c.exact
@@ -62,16 +62,17 @@ OtherPredsOK(c) == \A k \in 1..Len(c.mats) :
     /\ mt.preds.e_cond   = (mt.m.se # M!Zero9)
     /\ mt.preds.m_cond   = (mt.m.sm # M!Zero9)
 
+\* (d, ord, n are bound once through singleton sets: a LET definition would be re-evaluated by TLC at every use)
 CommonOrderOK(c) ==
-    LET d == D(c)  ord == NameOrd(c)  n == Len(c.mats) IN
+    \E d \in { D(c) } : \E ord \in { NameOrd(c) } : \E n \in { Len(c.mats) } :
     /\ Len(c.names) = n /\ M!IsPermutation(ord, n)
     /\ Len(c.matidx) = n /\ \A r \in 1..n : c.matidx[r] = ord[r]
     /\ \A p \in PropSet : \A md \in 1..3 :
-          LET got == c.lists[p][M!Modes[md]] IN
+          \E got \in { c.lists[p][M!Modes[md]] } :
           Len(got) = n /\ \A r \in 1..n : got[r] = M!Proj(d[ord[r]].m[p], M!Modes[md])
     /\ Len(c.disp) = n /\ \A r \in 1..n : c.disp[r][ord[r]]
 \* the documented key order (ascending, stable) - more detailed than the property
-DocumentedOrderOK(c) == LET d == D(c) IN \A r \in 1..Len(c.mats) : NameOrd(c)[r] = M!Order(d)[r]
+DocumentedOrderOK(c) == \E want \in { M!Order(D(c)) } : \E ord \in { NameOrd(c) } : \A r \in 1..Len(c.mats) : ord[r] = want[r]
 
 DictVerdict(c) ==
     IF MalformedDict(c) THEN "malformed: dictionary record"
